@@ -276,7 +276,7 @@ func c12TreeGen(tier Tier) TreeGen {
 		Kinds:     []string{"AND", "OR", "NOT", "LIST", "BASIC", "AND", "OR"},
 		RootKinds: []string{"AND", "OR", "LIST", "NOT"},
 		Leaf:      func(t *rapid.T) Val { return genPrimVal(t, true, false) },
-		Conds:     true, CondExprStack: true, CondExprCond: true,
+		Conds:     true, CondExprStack: true, CondExprCond: true, InvalidConds: true,
 		Options: true, Wraps: true, NilLeaves: true, EmptyStacks: true, IndexOpts: true, Caps: true, FIFOOpt: true, Ambient: true, WideRuns: true, NoNestAfter: true, ReadOnlyNodes: true, EqPolicies: true,
 	}
 	if tier.Thorough {
